@@ -152,7 +152,9 @@ class C07(Harness):
         for lines in LINES_Q[:6] + LINES_Q[10:12]:
             us.append({'kind': 'validator', 'lines': lines})
         # ... and on 0-3 configuration files named on the command line (concrete temp files)
-        for pattern in ('', 'v', 'i', 'vi', 'ii', 'iv', 'iii', 'ivi', 'vv'):
+        # 'p' = a valid file that %import-s a package and uses its type, 'u' = a file that uses that type
+        # without importing it (invalid whatever was checked before it in the same run)
+        for pattern in ('', 'v', 'i', 'vi', 'ii', 'iv', 'iii', 'ivi', 'vv', 'pu', 'up', 'pvu', 'pp', 'upu'):
             us.append({'kind': 'validator-files', 'files': pattern})
         for line in (INCL_Q if tier == 'quick' else INCL_T):
             us.append({'kind': 'inclarg', 'lines': [['kc v'], line]})
@@ -236,11 +238,21 @@ class C07(Harness):
         sys.stdin = io.StringIO('')
         try:
             sp = os.path.join(d, 's.xml')
-            open(sp, 'w').write(XML['S2'])
+            imports = 'p' in unit['files'] or 'u' in unit['files']
+            if imports:
+                from . import c12
+                c12.ensure_packages()
+                open(sp, 'w').write(c12.XML)
+            else:
+                open(sp, 'w').write(XML['S2'])
             args = ['-s', sp]
             for i, ch in enumerate(unit['files']):
                 fp = os.path.join(d, 'c%d.conf' % i)
-                open(fp, 'w').write('kt 5\n' if ch == 'v' else ('kt x%d\n' % i if i % 2 else '<ta>\n'))
+                if imports:
+                    text = {'v': 'kz 5\n', 'i': '<tb>\n', 'p': '%import vfq_a\n<pa/>\n', 'u': '<pa/>\nkz 1\n'}[ch]
+                else:
+                    text = 'kt 5\n' if ch == 'v' else ('kt x%d\n' % i if i % 2 else '<ta>\n')
+                open(fp, 'w').write(text)
                 args.append(fp)
             if not unit['files']:
                 return ('ok', 0, True)          # schema only needs a tty / reads stdin: not driven
@@ -251,7 +263,7 @@ class C07(Harness):
             except Exception as e:
                 return ('crash', type(e).__name__)
             n = len([x for x in err.getvalue().split('\n') if x.strip()])
-            bad = unit['files'].count('i')
+            bad = unit['files'].count('i') + unit['files'].count('u')
             ok = (rc == (1 if bad else 0)) and (n >= bad) and (bad > 0 or n == 0)
             return ('ok' if rc == 0 else 'reject', rc, ok)
         finally:
